@@ -422,7 +422,7 @@ class C04(Check):
     def gen(self, ch, tier):
         sc = gen_scenario(ch, backends=[('serial', 1), ('sim', 4), ('fork', 5), ('spawn', 3)], cache='sometimes',
                           fail=1, die=True, max_nodes=10,
-                          types=[('TA', 2), ('TB', 4), ('TC', 4), ('TD', 3), ('TN', 1), ('TN1', 3), ('TN2', 4), ('TP', 2), ('TF', 2)])
+                          types=[('TA', 2), ('TB', 4), ('TC', 4), ('TD', 3), ('TN', 1), ('TN1', 3), ('TN2', 4), ('TP', 2), ('TF', 2), ('TS1', 2), ('TS2', 2)])
         sc['swarm']['gate_mode'] = 'hold'
         cfg = ch.stream('config')
         if cfg.chance(1, 2):
@@ -441,7 +441,7 @@ class C05(Check):
     def gen(self, ch, tier):
         sc = gen_scenario(ch, backends=[('serial', 1), ('sim', 4), ('fork', 5), ('spawn', 3)], cache='sometimes',
                           fail=1, die=True, max_nodes=10,
-                          types=[('TA', 3), ('TB', 3), ('TC', 4), ('TD', 3), ('TN', 2), ('TN1', 2), ('TN2', 3), ('TP', 2), ('TF', 2)])
+                          types=[('TA', 3), ('TB', 3), ('TC', 4), ('TD', 3), ('TN', 2), ('TN1', 2), ('TN2', 3), ('TP', 2), ('TF', 2), ('TS1', 2), ('TS2', 2)])
         sc['swarm']['gate_mode'] = 'rest'
         sc['swarm']['w_timeout'] = 2
         cfg = ch.stream('config')
